@@ -884,6 +884,9 @@ func (r *runner) dealerCheat(sess *protos.Session, label func(party.ID) string) 
 		delta = -1
 	}
 	k := r.byz
+	// the deviating dealer is a real instance with altered state: when its own checks trip over what it did, it would
+	// tell everybody to abort - a cheater does not do that
+	e.OnEmit = func(inst party.ID, m *protocol.Message) bool { return !(inst == k && m.RoundNumber == 0) }
 	cfgs := protos.CloneConfigs(su.cfgs)
 	var mk func() protocol.StartFunc
 	switch su.proto {
